@@ -26,7 +26,6 @@ import (
 	"github.com/influxdata/influxdb/cmd/influxd/run"
 	"github.com/influxdata/influxdb/coordinator"
 	"github.com/influxdata/influxdb/models"
-	"github.com/influxdata/influxdb/services/continuous_querier"
 	"github.com/influxdata/influxdb/services/meta"
 	"github.com/influxdata/influxdb/tcp"
 	itoml "github.com/influxdata/influxdb/toml"
@@ -136,9 +135,7 @@ func TestVerifC16KFExecution(t *testing.T) {
 	c.CollectdInputs = nil
 	c.OpenTSDBInputs = nil
 	c.UDPInputs = nil
-	c.ContinuousQuery.Enabled = true
-	c.ContinuousQuery.RunInterval = itoml.Duration(time.Hour) // runs only when asked to
-	c.ContinuousQuery.LogEnabled = false
+	c.ContinuousQuery.Enabled = false
 	c.Retention.Enabled = false
 	c.Precreator.Enabled = false
 	c.AntiEntropy.Enabled = false
@@ -258,27 +255,10 @@ func TestVerifC16KFExecution(t *testing.T) {
 		_, b2 := vC16Query(addr, "adm", "admpw", "", "SHOW CONTINUOUS QUERIES", "GET")
 		stored = strings.Contains(b2, "cq0")
 	}
+	// The stored query is executed later by the continuous query service without any authorizer
+	// (continuous_querier.runContinuousQueryAndWriteResult: ExecutionOptions{Database} only). Forcing a
+	// run from here (Service.Run) blocked in two of five attempts, so the execution itself is not driven.
 	ran := false
-	if stored {
-		for _, svc := range s.Services {
-			if q, ok := svc.(*continuous_querier.Service); ok {
-				deadline := time.Now().Add(20 * time.Second)
-				for !ran && time.Now().Before(deadline) {
-					if err := q.Run("db0", "cq0", base.Add(70*time.Second)); err != nil {
-						fmt.Printf("C16-EXEC-CQ Run: %v\n", err)
-					}
-					time.Sleep(200 * time.Millisecond)
-					_, b3 := vC16Query(addr, "u1", "u1pw", "db0", "SELECT * FROM stolen", "GET")
-					ran = strings.Contains(b3, "stolen") && strings.Contains(b3, "41")
-				}
-			}
-		}
-	}
-	if stored && !ran {
-		_, lerr := mcli.AcquireLease("verif-probe")
-		_, b4 := vC16Query(addr, "adm", "admpw", "db0", "SELECT * FROM stolen", "GET")
-		fmt.Printf("C16-EXEC-CQ not observed: nodeID=%d lease err=%v; db0.stolen as admin: %s\n", mcli.NodeID(), lerr, strings.TrimSpace(b4))
-	}
 	cls := "exec:not-confirmed"
 	switch {
 	case ran:
